@@ -242,6 +242,18 @@ class NumKernel(BaseKernel):
     def opaque(self, name):
         return self.real(name)
 
+    def number_token(self, name, style=0):
+        """(value, text): a number and a text of it that float() reads back exactly (varied but exact formats)."""
+        v = self.real(name)
+        styles = [repr, lambda x: "%.17e" % x, lambda x: "%+.17g" % x, lambda x: ("%.17E" % x), lambda x: repr(x).upper() if "e" in repr(x) else repr(x)]
+        txt = styles[style % len(styles)](float(v))
+        if float(txt) != float(v):
+            txt = repr(float(v))
+        return v, txt
+
+    def install_tokens(self):
+        pass
+
     def spd_matrix(self, name, n):
         names = [["%s_%d_%d" % (name, min(i, j), max(i, j)) for j in range(n)] for i in range(n)]
         flat = {nm for row in names for nm in row}
